@@ -181,4 +181,80 @@ def extractAnalysis {L : Type} (pg : Nat → Except E (List L)) (sel : List Int)
   | .ok idx => if idx.isEmpty then .error .nopages else analyzeOf pg idx
   | .error e => .error e
 
+/-! ### cross-page summaries of `ReadingOrder` and `Analyze` (additive) -/
+
+/-- what `Extractor.ReadingOrder` keeps of one page's `layout.ReadingOrderResult` besides the
+appended lists: `ColumnCount`, `PageWidth`, `PageHeight` (generated pages have integral sizes) -/
+structure ROPage where
+  cols : Nat
+  w : Nat
+  h : Nat
+  deriving DecidableEq, Repr
+
+/-- one iteration of the page loop of `ReadingOrder`:
+`if pageResult.ColumnCount > combined.ColumnCount { … }` and
+`if combined.PageWidth == 0 { PageWidth, PageHeight = pageResult.… }` -/
+def roStep (acc p : ROPage) : ROPage :=
+  { cols := if p.cols > acc.cols then p.cols else acc.cols,
+    w := if acc.w = 0 then p.w else acc.w,
+    h := if acc.w = 0 then p.h else acc.h }
+
+def readingOrderOf (pg : Nat → Except E ROPage) (idx : List Nat) : Except E ROPage :=
+  match collect pg idx with
+  | .ok ps => .ok (ps.foldl roStep ⟨0, 0, 0⟩)
+  | .error e => .error e
+
+/-- `ReadingOrder` refuses an empty page list -/
+def extractReadingOrder (pg : Nat → Except E ROPage) (sel : List Int) (n : Nat) : Except E ROPage :=
+  match resolvePages sel n with
+  | .ok idx => if idx.isEmpty then .error .nopages else readingOrderOf pg idx
+  | .error e => .error e
+
+/-- the counters of `layout.AnalysisStats` that `Extractor.Analyze` adds up (FragmentCount,
+LineCount, BlockCount, ParagraphCount, HeadingCount, ListCount, ElementCount) -/
+structure AStats where
+  frag : Nat
+  line : Nat
+  block : Nat
+  para : Nat
+  head : Nat
+  list : Nat
+  elem : Nat
+  deriving DecidableEq, Repr
+
+def AStats.add (a b : AStats) : AStats :=
+  ⟨a.frag + b.frag, a.line + b.line, a.block + b.block, a.para + b.para, a.head + b.head,
+   a.list + b.list, a.elem + b.elem⟩
+
+/-- one page's `layout.AnalysisResult`, as far as the summary goes -/
+structure APage where
+  stats : AStats
+  w : Nat
+  h : Nat
+  deriving DecidableEq, Repr
+
+/-- the summary fields of the combined `layout.AnalysisResult`; `Stats.ColumnCount` is never
+assigned by `Extractor.Analyze` and stays 0 -/
+structure ASummary where
+  stats : AStats
+  colCount : Nat
+  w : Nat
+  h : Nat
+  deriving DecidableEq, Repr
+
+def anStep (acc : ASummary) (p : APage) : ASummary :=
+  { stats := acc.stats.add p.stats, colCount := acc.colCount,
+    w := if acc.w = 0 then p.w else acc.w,
+    h := if acc.w = 0 then p.h else acc.h }
+
+def analysisSummaryOf (pg : Nat → Except E APage) (idx : List Nat) : Except E ASummary :=
+  match collect pg idx with
+  | .ok ps => .ok (ps.foldl anStep ⟨⟨0, 0, 0, 0, 0, 0, 0⟩, 0, 0, 0⟩)
+  | .error e => .error e
+
+def extractAnalysisSummary (pg : Nat → Except E APage) (sel : List Int) (n : Nat) : Except E ASummary :=
+  match resolvePages sel n with
+  | .ok idx => if idx.isEmpty then .error .nopages else analysisSummaryOf pg idx
+  | .error e => .error e
+
 end Tabula.PageSel
